@@ -33,6 +33,8 @@ type Node struct {
 	VLimitKB int64    // non-zero => run under `ulimit -v <KB>` (virtual memory cap)
 	LogPath  string
 
+	lastJoin []string
+
 	mu   sync.Mutex
 	cmd  *exec.Cmd
 	done chan struct{}
@@ -58,6 +60,7 @@ func New(id, dir string) *Node {
 func (n *Node) Start(join ...string) error {
 	n.mu.Lock()
 	defer n.mu.Unlock()
+	n.lastJoin = join
 	args := []string{"-node-id", n.ID, "-http-addr", n.HTTPAddr, "-raft-addr", n.RaftAddr,
 		"-raft-log-level", "ERROR"}
 	if len(join) > 0 && join[0] != "" {
@@ -132,6 +135,18 @@ func (n *Node) WaitExit(d time.Duration) (int, bool) {
 	if ch == nil {
 		return 0, true
 	}
+	// Prefer the exit notification: with d == 0 both cases could be ready and
+	// select would pick at random.
+	select {
+	case <-ch:
+		n.mu.Lock()
+		defer n.mu.Unlock()
+		return n.exit, true
+	default:
+	}
+	if d <= 0 {
+		return 0, false
+	}
 	select {
 	case <-ch:
 		n.mu.Lock()
@@ -202,12 +217,45 @@ func (n *Node) PostJSON(path string, v any) Resp {
 	return n.Do("POST", path, b, "application/json")
 }
 
-// WaitReady polls /readyz until 200 or the process exits / d elapses.
+// portInUse reports whether the last start of the node failed because one of
+// its listen addresses was taken (on a busy machine another process can grab a
+// port between a stop and the restart: a harness condition, not a verdict).
+func (n *Node) portInUse() bool {
+	b, err := os.ReadFile(n.LogPath)
+	if err != nil {
+		return false
+	}
+	s := string(b)
+	if i := strings.LastIndex(s, "==== start "); i >= 0 {
+		s = s[i:]
+	}
+	return strings.Contains(s, "address already in use")
+}
+
+// ErrPortInUse is returned by WaitReady when the node could not bind its
+// address even after several retries.
+var ErrPortInUse = fmt.Errorf("listen address taken by another process")
+
+// WaitReady polls /readyz until 200 or the process exits / d elapses. A start
+// that failed with "address already in use" is retried a few times.
 func (n *Node) WaitReady(d time.Duration) error {
 	deadline := time.Now().Add(d)
+	retries := 0
 	for time.Now().Before(deadline) {
 		if !n.Running() {
 			code, _ := n.WaitExit(0)
+			if n.portInUse() {
+				if retries < 8 {
+					retries++
+					time.Sleep(700 * time.Millisecond)
+					args := n.lastJoin
+					if err := n.Start(args...); err != nil {
+						return err
+					}
+					continue
+				}
+				return ErrPortInUse
+			}
 			return fmt.Errorf("process exited with %d while waiting for ready", code)
 		}
 		r := n.Do("GET", "/readyz", nil, "")
